@@ -74,7 +74,7 @@ def scan(ctx, n, off, points, measure):
     ctx.claim('each_value_is_the_measure_of_that_combination', S.sym_and(*good))
 
 
-def same_start(ctx, k, master, n=6, by_index=False, stypes=None):
+def same_start(ctx, k, master, n=6, by_index=False, stypes=None, section=None):
     lib = ctx.lib
     recs = [ctx.arr('s%d' % j, n, -10.0, 10.0) for j in range(k)]
     keep = [[v + 0.0 for v in r] for r in recs]
@@ -83,9 +83,9 @@ def same_start(ctx, k, master, n=6, by_index=False, stypes=None):
     if stypes is not None:
         want_t = [stypes] * k if isinstance(stypes, str) else stypes
         ctx.claim('signal_types_as_requested', all(isinstance(cl.signal_by_index(j), lib.AccSignal) == (want_t[j] == 'acc') for j in range(k)), stypes)
-    start, end = 0, 1   # seconds: samples 0..int(1/0.5)+1 -> [0:3]
+    start, end = (0, 1) if section is None else section   # seconds: samples int(start/dt) .. int(end/dt) inclusive
     cl.same_start(start=start, end=end)
-    lo, hi = 0, int(end / dt) + 1
+    lo, hi = int(start / dt), int(end / dt) + 1
     def mean(vals):
         tot = 0.0
         for v in vals[lo:hi]:
@@ -183,6 +183,9 @@ def obligations(tier, seed):
     for k in (2, 3, 4):
         for master in range(k):
             yield Ob('same_start', {'k': k, 'master': master})
+    # other sections: interior, one sample, and sections that end exactly on the last sample of the record (n = 6, dt = 0.5)
+    for sec in ([1.0, 2.0], [0.5, 0.5], [0, 2.5], [1.5, 2.5], [2.5, 2.5]):
+        yield Ob('same_start', {'k': 3, 'master': 1, 'section': sec})
     # AccSignal members ('acc') and mixed clusters behave like plain Signal members
     yield Ob('same_start', {'k': 3, 'master': 1, 'stypes': 'acc'})
     yield Ob('same_start', {'k': 3, 'master': 2, 'stypes': ['acc', 'custom', 'acc']})
